@@ -78,7 +78,7 @@ impl Engine for Msim {
         let p = gen::profile_for(&ctx.prop, thorough);
         let cases = match (ctx.prop.as_str(), thorough) {
             (_, false) => 16 * 800,
-            (_, true) => 16 * 30000,
+            (_, true) => 16 * 20000,
         };
         let mut stages = vec![Stage {
             name: "random".into(),
